@@ -132,8 +132,18 @@ class ZeroFlow:
                 if dvar is not None and null_edge(f, dvar)(lab):
                     return False
                 return True
-            thr = lambda e: rl.is_call(f, e, MEMZERO) and any(rl.is_call(f, x, USABLE) or (f.nodes[x]["k"] == "MemberExpr" and f.nodes[x]["fld"] == "block_size")
-                                                               for x in f.walk(f.nodes[e]["args"][1]))
+            def full_zero(h, e):
+                return rl.is_call(h, e, MEMZERO) and any(rl.is_call(h, x, USABLE) or (h.nodes[x]["k"] == "MemberExpr" and h.nodes[x]["fld"] == "block_size")
+                                                         for x in h.walk(h.nodes[e]["args"][1]))
+
+            def thr(e):
+                if full_zero(f, e):
+                    return True
+                # the same memzero moved into a private helper that receives the block and runs it on all of its paths
+                h = self.prog.fns.get(f.nodes[e].get("callee")) if f.nodes[e]["k"] == "CallExpr" else None
+                if h is not None and h.d.get("static") and h.file == f.file and dvar is not None and any(rl.var_of(f, a) == dvar for a in f.nodes[e]["args"]):
+                    return h.cfg.must_pass([h.cfg.entry], h.cfg.exit_points(), lambda x: full_zero(h, x)) is None
+                return False
             w = cfg.must_pass([cfg.after(j)], [cfg.pt(ret)], thr, edge_ok=edge_ok)
             if w is None:
                 self.afterwards.append((f.name, g, f.loc(j)))
@@ -296,7 +306,24 @@ def r4(ctx, prog):
             continue
         old_d, new_d = olds[0], news[0]["d"]
         newcall = f.strip(news[0]["init"])
-        zs = [c for c in f.calls(MEMZERO) if f.mentions_decl(rl.arg(f, c, 0), new_d)]
+        # the explicit clearing: memzero calls on the new block, in f itself or in a private helper that receives the new
+        # block (and the old usable size) and runs the memzero on all of its paths
+        sites = [(f, c, new_d, old_d, c) for c in f.calls(MEMZERO) if f.mentions_decl(rl.arg(f, c, 0), new_d)]
+        for hc in f.calls():
+            h = prog.fns.get(f.nodes[hc].get("callee"))
+            if h is None or not h.d.get("static") or h.file != f.file or h.name == f.name:
+                continue
+            args = f.nodes[hc]["args"]
+            kn = [k for k, a_ in enumerate(args) if rl.var_of(f, a_) == new_d]
+            ko = [k for k, a_ in enumerate(args) if rl.var_of(f, a_) == old_d]
+            if len(kn) != 1:
+                continue
+            hn, ho = h.param_id(kn[0]), (h.param_id(ko[0]) if len(ko) == 1 else None)
+            hz = [c for c in h.calls(MEMZERO) if h.mentions_decl(rl.arg(h, c, 0), hn)]
+            if hz and h.cfg.must_pass([h.cfg.entry], h.cfg.exit_points(), lambda e: e in hz) is None and not any(True for a_, r_, o_ in h.var_defs(hn)) and \
+                    (ho is None or not any(True for a_, r_, o_ in h.var_defs(ho))):
+                sites += [(h, c, hn, ho, hc) for c in hz]
+        zs = [s_[4] for s_ in sites]
         # (a) on the zero edge with a non-NULL new block, a memzero of the new block is on every path to the return of newp
         rets = [r for r in f.all(kind="ReturnStmt") if "val" in f.nodes[r] and rl.var_of(f, f.nodes[r]["val"]) == new_d]
         eok0 = ztrue_edges(f, bool_params(f))
@@ -309,26 +336,28 @@ def r4(ctx, prog):
             zf = ZeroFlow(prog)
             new_zeroed = not zf.value(f, newcall, rets[0], set(bool_params(f)), 0, set())
         ctx.check(R, w is None or new_zeroed, f.where(), "zero path: the new block is memzero'ed (or obtained zeroed) before it is returned", key="C04.R4:%s" % fname, witness=w)
-        for c in zs:
-            dst, ln = rl.arg(f, c, 0), rl.arg(f, c, 1)
-            dj = f.strip(dst)
+        for h, c, hn, ho, _site in sites:
+            dst, ln = rl.arg(h, c, 0), rl.arg(h, c, 1)
+            dj = h.strip(dst)
             # dest = newp + S
             S = None
-            if f.nodes[dj]["k"] == "BinaryOperator" and f.nodes[dj]["op"] == "+" and f.mentions_decl(f.nodes[dj]["c"][0], new_d):
-                S = f.nodes[dj]["c"][1]
-            elif rl.var_of(f, dst) == new_d:
+            if h.nodes[dj]["k"] == "BinaryOperator" and h.nodes[dj]["op"] == "+" and h.mentions_decl(h.nodes[dj]["c"][0], hn):
+                S = h.nodes[dj]["c"][1]
+            elif h.nodes[dj]["k"] == "BinaryOperator" and h.nodes[dj]["op"] == "+" and h.mentions_decl(h.nodes[dj]["c"][1], hn):
+                S = h.nodes[dj]["c"][0]
+            elif rl.var_of(h, dst) == hn:
                 S = "zero"
-            lj = f.strip(ln)
+            lj = h.strip(ln)
             ends_at_usable = False
             if S == "zero":
-                ends_at_usable = rl.is_call(f, lj, USABLE) and f.mentions_decl(lj, new_d)
-            elif S is not None and f.nodes[lj]["k"] == "BinaryOperator" and f.nodes[lj]["op"] == "-":
-                a, b = f.nodes[lj]["c"]
-                ends_at_usable = rl.is_call(f, f.strip(a), USABLE) and f.mentions_decl(a, new_d) and f.text(b) == f.text(S)
-            ctx.check(R, ends_at_usable, f.where(c), "zeroed range [%s, +%s) must end at the usable size of the new block, not at the request" % (f.text(dst), f.text(ln)),
+                ends_at_usable = rl.is_call(h, lj, USABLE) and h.mentions_decl(lj, hn)
+            elif S is not None and h.nodes[lj]["k"] == "BinaryOperator" and h.nodes[lj]["op"] == "-":
+                a, b = h.nodes[lj]["c"]
+                ends_at_usable = rl.is_call(h, h.strip(a), USABLE) and h.mentions_decl(a, hn) and rl.canon(h, b) == rl.canon(h, S)
+            ctx.check(R, ends_at_usable, h.where(c), "zeroed range [%s, +%s) must end at the usable size of the new block, not at the request" % (h.text(dst), h.text(ln)),
                       key="C04.R4:%s" % fname)
-            starts_ok = S == "zero" or (S is not None and upper_bounded_by(f, S, old_d))
-            ctx.check(R, starts_ok, f.where(c), "zeroed range starts at %s <= old usable size" % ("0" if S == "zero" else f.text(S) if S is not None else "?"),
+            starts_ok = S == "zero" or (S is not None and ho is not None and upper_bounded_by(h, S, ho))
+            ctx.check(R, starts_ok, h.where(c), "zeroed range starts at %s <= old usable size" % ("0" if S == "zero" else h.text(S) if S is not None else "?"),
                       key="C04.R4:%s:start" % fname)
     ctx.floor(R, 6)
 
